@@ -76,7 +76,7 @@ inductive OutFn where
 structure EvData where
   dur : Dur := .none          -- the 'duration' item
   value : Option Val := none  -- the 'value' item
-  deriving Repr, Inhabited
+  deriving DecidableEq, Repr, Inhabited
 
 structure Cfg where
   tbl : Table
@@ -100,10 +100,10 @@ structure Handle where
   deriving DecidableEq, Repr, Inhabited
 
 inductive Entry where
-  | exit (q : String)
+  | exit (q : String) (d : EvData)     -- exit action; `d`: what it reads through `fsm_event_data`
   | onExit (q : String)
   | cancel (id : Nat)
-  | enter (q : String)
+  | enter (q : String) (d : EvData)    -- entry action; `d`: what it reads through `fsm_event_data`
   | arm (h : Handle)
   | out (v : Val)
   | onEnter (q : String)
@@ -124,8 +124,10 @@ structure St where
   next : Option (TEvent × EvData × String) := none
   stopped : Bool := false
   failed : Option ErrKind := none
+  /-- the value of the context variable `fsm_event_data` in the running context -/
+  ctx : EvData := {}
   log : List (Nat × Entry) := []
-  deriving Repr, Inhabited
+  deriving DecidableEq, Repr, Inhabited
 
 inductive Res where
   | ret (accepted : Bool)
@@ -140,6 +142,12 @@ def St.fail (s : St) (k : ErrKind) : St :=
   match s.failed with
   | some _ => s
   | none => { s with failed := some k }
+
+/-- `self._state = q`: a new visit begins -/
+def St.enter (s : St) (q : String) : St := { s with state := some q, epoch := s.epoch + 1 }
+
+/-- `self._next_event = …` -/
+def St.setNextEv (s : St) (x : Option (TEvent × EvData × String)) : St := { s with next := x }
 
 /-- the loop's pending (non-cancelled) handles of this FSM -/
 def live (s : St) : List Handle := s.timers.filter (fun h => !h.cancelled)
@@ -193,15 +201,17 @@ def effDur (c : Cfg) (q : String) (item : Dur) : Dur :=
 
 /-! ### table lookup, conditions -/
 
+/-- the dictionary `_ct_transition` at the key `(event, state-or-None)`: `none` = no such key,
+    `some none` = the stored target is None -/
+def Table.lookupKey (t : Table) (e : String) (q : Option String) : Option (Option String) :=
+  (t.trans.find? (fun r => r.1 == e && r.2.1 == q)).map (·.2.2)
+
 /-- the rule for the current state, else the any-state rule; a stored `None` target of the
     specific rule does NOT fall through to the any-state rule -/
 def Table.lookup (t : Table) (e q : String) : Option String :=
-  match t.trans.find? (fun r => r.1 == e && r.2.1 == some q) with
-  | some r => r.2.2
-  | none =>
-    match t.trans.find? (fun r => r.1 == e && r.2.1 == none) with
-    | some r => r.2.2
-    | none => none
+  match t.lookupKey e (some q) with
+  | some v => v
+  | none => (t.lookupKey e none).getD none
 
 def Cfg.condsOf (c : Cfg) (e : String) : List Cond :=
   (c.conds.filter (fun p => p.1 == e)).map (·.2)
@@ -252,24 +262,32 @@ def resolve (c : Cfg) (s : St) (e : TEvent) (d : EvData) : St × Resolved :=
             | none => (s, .error .keyError)
             | some (s', ok) => if ok then (s', .target q) else (s', .reject)
 
-/-- a recursive `event()` while a transition is running (`_fsm_event_active`): the accepted
-    event is stored in `_next_event`; a second one is an error. Returns "accepted". -/
+/-- `fsm_event_data.set(…)` -/
+def setCtx (s : St) (d : EvData) : St := { s with ctx := d }
+
+/-- `_ctx_event` called recursively while a transition is running (`_fsm_event_active`): the
+    accepted event is stored in `_next_event`; a second one is an error. Returns "accepted". -/
 def post (c : Cfg) (s : St) (e : TEvent) (d : EvData) : St × Bool :=
-  match resolve c s e d with
+  match resolve c (setCtx s d) e d with
   | (s1, .target q) =>
     match s1.next with
     | some _ => (s1.fail .circuitError, false)
-    | none => ({ s1 with next := some (e, d, q) }, true)
+    | none => (s1.setNextEv (some (e, d, q)), true)
   | (s1, .reject) => (s1, false)
   | (s1, .unknown) => (s1.fail .unknownEvent, false)
   | (s1, .error k) => (s1.fail k, false)
 
+/-- `_event` = `contextvars.copy_context().run(self._ctx_event, …)` for the recursive call: what
+    `_ctx_event` does to `fsm_event_data` stays in the copy of the context -/
+def eventRec (c : Cfg) (s : St) (e : TEvent) (d : EvData) : St × Bool :=
+  ({ (post c s e d).1 with ctx := s.ctx }, (post c s e d).2)
+
 /-- `_run_cb('enter', state)` -/
 def runEnter (c : Cfg) (s : St) (q : String) : St :=
-  let s1 := s.emit (.enter q)
+  let s1 := s.emit (.enter q s.ctx)
   match c.enterSend.lookup q with
   | none => s1
-  | some (e, dur) => (post c s1 e { dur := dur }).1
+  | some (e, dur) => (eventRec c s1 e { dur := dur }).1
 
 /-- `_start_timer(data.get('duration'), timed_event)` in state `q` -/
 def startTimer (c : Cfg) (s : St) (q : String) (tev : TEvent) (item : Dur) : St :=
@@ -278,7 +296,7 @@ def startTimer (c : Cfg) (s : St) (q : String) (tev : TEvent) (item : Dur) : St 
   | .bad => s.fail .valueError
   | .inf => s
   | .us d =>
-    if d ≤ 0 then (post c s tev {}).1
+    if d ≤ 0 then (eventRec c s tev {}).1
     else setTimer s d.toNat tev
 
 def calcOutput (c : Cfg) (s : St) : Option Val :=
@@ -297,62 +315,74 @@ def sendOnEnter (s : St) : St :=
   | some q => s.emit (.onEnter q)
   | none => s
 
-/-- a block whose output is still UNDEF after its initialisation makes the simulator give up
-    (`init_sblock`: "not initialized") -/
-def checkInit (s : St) : St := if s.out.isUndef then s.fail .circuitError else s
-
 /-- end of an executed transition: output (`calc_output` returning UNDEF leaves it unchanged),
     then the `on_enter` events -/
 def finish (c : Cfg) (s : St) : St :=
   match calcOutput c s with
   | none => s.fail .keyError
-  | some v => checkInit (sendOnEnter (setOut s v))
+  | some v => sendOnEnter (setOut s v)
 
-/-- exit action of the intermediate state of a chained transition -/
-def exitPrev (s : St) : Option String → St
-  | some p => s.emit (.exit p)
+/-- `_run_cb('exit', self._state)` -/
+def exitCur (s : St) : St :=
+  match s.state with
+  | some p => s.emit (.exit p s.ctx)
   | none => s
 
-/-- one round of the loop of `_ctx_event`: the state is entered, its entry action runs and,
-    unless the entry action has posted an event, the timer of a timed state is started -/
+/-- beginning of a round of the loop: a pending chained event is unpacked, `fsm_event_data` is
+    switched to its data and the exit action of the intermediate state runs -/
+def popNext (s : St) (d : EvData) (q : String) : St × EvData × String :=
+  match s.next with
+  | some (_, d', q') => (exitCur (setCtx (s.setNextEv none) d'), d', q')
+  | none => (s, d, q)
+
+/-- the rest of a round: the state is entered, its entry action runs and, unless the entry action
+    has posted an event, the timer of a timed state is started -/
 def enterState (c : Cfg) (s : St) (d : EvData) (q : String) : St :=
-  let s1 := runEnter c { s with state := some q, epoch := s.epoch + 1 } q
+  let s1 := runEnter c (s.enter q) q
   if s1.failed.isSome || s1.next.isSome then s1
   else match c.tbl.timedOf q with
     | none => s1
     | some (tev, _) => startTimer c s1 q tev d.dur
 
-/-- the `for _ in range(chainlimit)` loop of `_ctx_event`; `q` is the state to enter with the
-    data `d` of the event that leads there; `prev` is the intermediate state of a chained
-    transition, whose exit action runs at the beginning of the next round -/
-def enterLoop (c : Cfg) : Nat → St → Option String → EvData → String → St
-  | 0, s, _, _, _ => s.fail .circuitError
-  | fuel + 1, s, prev, d, q =>
-    let s2 := enterState c (exitPrev s prev) d q
+/-- the `for _ in range(chainlimit)` loop of `_ctx_event` with its `else:` and what follows the
+    loop; `q` is the state to enter with the data `d` of the event that leads there -/
+def enterLoop (c : Cfg) : Nat → St → EvData → String → St
+  | 0, s, _, _ => s.fail .circuitError
+  | fuel + 1, s, d, q =>
+    let r := popNext s d q
+    let s2 := enterState c r.1 r.2.1 r.2.2
     if s2.failed.isSome then s2
-    else match s2.next with
-      | some (_, d', q') => enterLoop c fuel { s2 with next := none } (some q) d' q'
-      | none => finish c s2
+    else if s2.next.isSome then enterLoop c fuel s2 r.2.1 r.2.2
+    else finish c s2
 
 /-- exit part of an executed transition (only when initialised): exit action, `on_exit`
     events, `_stop_timer` -/
 def leave (s : St) : St :=
   if s.out.isUndef then s
   else match s.state with
-    | some cur => stopTimer ((s.emit (.exit cur)).emit (.onExit cur))
+    | some cur => stopTimer ((s.emit (.exit cur s.ctx)).emit (.onExit cur))
     | none => s
 
-/-- `SBlock.event` → `_ctx_event` for an event arriving from outside or from the timer -/
-def deliver (c : Cfg) (s : St) (e : TEvent) (d : EvData) : St × Res :=
-  match resolve c s e d with
+/-- `FSM._ctx_event` for an event arriving from outside or from the timer
+    (`_fsm_event_active` is false, `_next_event` is None) -/
+def ctxEvent (c : Cfg) (s : St) (e : TEvent) (d : EvData) : St × Res :=
+  match resolve c (setCtx s d) e d with
   | (s1, .unknown) => (s1, .unknown)
   | (s1, .error k) => (s1.fail k, .err k)
   | (s1, .reject) => (s1, .ret false)
   | (s1, .target q) =>
-    let s2 := enterLoop c c.tbl.chainLimit (leave s1) none d q
+    let s2 := enterLoop c c.tbl.chainLimit (leave s1) d q
     match s2.failed with
     | some k => (s2, .err k)
     | none => (s2, .ret true)
+
+/-- `SBlock.event` → `_event` → `_ctx_event`; an executed transition that leaves the output UNDEF
+    means that the block could not be initialised: the simulator gives up (`init_sblock`:
+    "not initialized") -/
+def deliver (c : Cfg) (s : St) (e : TEvent) (d : EvData) : St × Res :=
+  match ctxEvent c s e d with
+  | (s2, .ret true) => if s2.out.isUndef then (s2.fail .circuitError, .err .circuitError) else (s2, .ret true)
+  | r => r
 
 /-! ### the clock -/
 
@@ -364,6 +394,7 @@ def popTimer (s : St) (h : Handle) : St :=
     active := none
     timers := s.timers.filter (fun x => x.id != h.id)
     nextId := s.nextId, epoch := s.epoch, next := s.next, stopped := s.stopped, failed := s.failed
+    ctx := s.ctx
     log := s.log ++ [(if s.now < h.when then h.when else s.now, .fire h s.epoch s.state)] }
 
 /-- … and `_timer_expired` delivers the timed event without data -/
